@@ -38,6 +38,9 @@ def strs(alpha, maxlen):
 def cases(tier, seed):
     L = 13 if tier == 'quick' else 15
     k = 4 if tier == 'quick' else 5
+    # primary segments read with an explicitly given delimiter: strings that do not start with it must be refused
+    for p in itertools.product('/ab', repeat=3):
+        yield dict(kind='explicit', prefix=''.join(p), L=9 if tier == 'quick' else 11)
     for supp in (False, True):
         yield dict(kind='strings', supp=supp, prefix=None, L=k - 1)         # all strings shorter than k
         for p in itertools.product('/ab', repeat=k):
@@ -137,6 +140,38 @@ def run_case(c):
     if k == 'one':
         judge(res, c['s'], c['supp'], c.get('delim', D))
         return res
+    if k == 'explicit':
+        import FlowCal
+        p = c['prefix']
+        n_ = 0
+        for n in range(0, c['L'] - len(p) + 1):
+            for t in itertools.product('/ab', repeat=n):
+                s = p + ''.join(t)
+                b = s.encode('latin-1')
+                with warnings.catch_warnings(record=True):
+                    warnings.simplefilter('always')
+                    try:
+                        got = ('ok', FlowCal.io.read_fcs_text_segment(io.BytesIO(b), 0, len(b) - 1, delim=D, supplemental=False)[0])
+                    except Exception as e:
+                        got = ('err', type(e).__name__)
+                    try:
+                        ref_ = ('ok', FlowCal.io.read_fcs_text_segment(io.BytesIO(b), 0, len(b) - 1, delim=None, supplemental=False)[0])
+                    except Exception as e:
+                        ref_ = ('err', type(e).__name__)
+                one = dict(kind='explicit-one', s=s)
+                if s[0] != D:
+                    if got[0] == 'ok':
+                        res.violation('explicit-delim:not-refused', 'primary segment %r does not start with the delimiter %r but was read as %r' % (s, D, got[1]), one)
+                    else:
+                        res.ok('explicit:refused', True)
+                elif got != ref_:
+                    res.violation('explicit-delim:differs', 'primary segment %r read with explicit delimiter gives %r, with the delimiter taken from its first byte %r' % (s, got, ref_), one)
+                else:
+                    res.ok('explicit:same', True)
+        res.sample({'prefix': p, 'max_length': c['L'], 'read': 'primary with explicit delim'})
+        return res
+    if k == 'explicit-one':
+        return run_case(dict(kind='explicit', prefix=c['s'], L=len(c['s'])))
     if k == 'strings':
         supp = c['supp']
         if c['prefix'] is None:
